@@ -21,6 +21,9 @@ CLAIMED["C01"] = ("Emission is modelled piece by piece (one group of tokens per 
 CLAIMED["C02"] = ("OpenSCAD's string lexer reads the library's escaped strings back to the same characters for every NUL-free string (theorem by induction on the string); every ScadColor variant prints an SVG colour keyword except Browns and every alignment/direction keyword is one text() accepts (decide +kernel over variant lists regenerated from scad.rs each run); integers below 2^53 survive OpenSCAD's double. On every generated tree the implementation's text is parsed, bound by OpenSCAD's positional/named rules (Spec/OpenScadBind.lean) and decoded back to the node, and compared field by field — numbers through an exact correctly-rounded decimal-to-binary64 reader.",
   "Binding tables and number/string lexing are hand transcriptions of the OpenSCAD manual/lexer; number round trip relies on Rust's Display (external) and is checked per run, not proved; known findings: Browns, u64 above 2^53.",
   "Lean 4 theorems (induction, decide +kernel over regenerated enum tables) + Lean-executed binder/decoder as oracle + differential correspondence harness", "5/C02")
+CLAIMED["C03"] = ("PARTIAL. The ear-clipping loop is modelled exactly (same scan order, same predicates) and its output equals the crate's index list on every generated polygon; theorems about the model are listed in the evidence (loop invariants: indices, orientation of every emitted triangle, area conservation); completion for arbitrary simple polygons (Meisters' two-ears theorem for the remaining polygon, soundness of the later-vertices-only scan) and 'certificate implies no overlap' are plane-topology facts that are cited, not formalised. Every implementation result is checked against the tiling certificate (n-2 triangles, indices, winding, boundary edges once / diagonals twice, areas) by the Lean oracle.",
+  "Exact arithmetic in the theorems; floating-point robustness is outside them (known finding: vertices within rounding distance of a chord). Polygon generators are simple by construction (convex, star-shaped, comb, spiral, staircase, the library's own outlines) x winding x list rotation x scale 1e-6..1e6 x 3D embeddings.",
+  "Lean 4 model + loop-invariant theorems (partial) + Lean-executed tiling certificate as oracle + differential correspondence harness", "5/C03")
 NOT_YET = {
 }
 ALL = ["C%02d" % i for i in range(1, 20)]
